@@ -13,6 +13,7 @@ import (
 	vestingtypes "github.com/cosmos/cosmos-sdk/x/auth/vesting/types"
 	"github.com/cosmos/cosmos-sdk/x/authz"
 	banktypes "github.com/cosmos/cosmos-sdk/x/bank/types"
+	crisistypes "github.com/cosmos/cosmos-sdk/x/crisis/types"
 	distrtypes "github.com/cosmos/cosmos-sdk/x/distribution/types"
 	govv1 "github.com/cosmos/cosmos-sdk/x/gov/types/v1"
 	"github.com/medibloc/panacea-core/v2/app"
@@ -75,6 +76,8 @@ func RequiredSigners(msg sdk.Msg) []string {
 		return []string{x.FromAddress}
 	case *vestingtypes.MsgCreatePeriodicVestingAccount:
 		return []string{x.FromAddress}
+	case *crisistypes.MsgVerifyInvariant:
+		return []string{x.Sender}
 	case *distrtypes.MsgFundCommunityPool:
 		return []string{x.Depositor}
 	case *govv1.MsgSubmitProposal:
